@@ -64,6 +64,18 @@ def run(ck):
             if l["val"] not in SEPARATORS:
                 keywords.append((l["val"], l["line"], "write_all", None))
     ck.count("writer line-start keywords", len(keywords))
+    # a mode is read back as an octal number (parse_mode): it has to be written as one
+    nmode = 0
+    for text, line, kind, pieces in keywords:
+        if kind != "template" or not text.rstrip().endswith("mode"):
+            continue
+        phs = [p_ for p_ in pieces if p_.get("ph")]
+        nmode += 1
+        ck.require(len(phs) == 1 and phs[0].get("trait") == "Octal" and phs[0].get("width", -1) == -1 and phs[0].get("plain", True), "C12-R5",
+                   "the mode after %r is written in octal" % text,
+                   "the mode is formatted with %s: the parser reads the digits as an octal number (or refuses them), the mode does not "
+                   "survive" % [(p_.get("trait"), p_.get("width")) for p_ in phs], "%s:%d" % (WRITER_FILE, line), ok_detail="{:o}")
+    ck.floor("C12-R5", "mode lines in the header writer", nmode, 4)
     ck.floor("C12-R1", "writer line-start keywords", len(keywords), 12)
     for text, line, kind, pieces in keywords:
         ok = text in parser_prefixes
